@@ -40,17 +40,7 @@ RULE = ("RBF and RQ kernels, var / length scale / alpha log-uniform in (1e-2, 1e
         "with other hyper-parameters, one coordinate moved by one ulp, x and y exchanged, the same Vector/Matrix object "
         "mutated in place (rbf_g/rq_g), RBF and RQ interleaved - for each kernel and argument kind; non-trivial = distinct (op, form/kind, sizes, parameter decade) class")
 EXHAUSTIVE = {"quick": False, "thorough": False}
-NOT_PROVED = [
-    "floating-point rounding: the theorems are about exact (real) arithmetic; at f64 the scalar form is checked by the "
-    "oracle against the exact value within 400 eps (1 + |exponent|) relative, and 0 <= k <= var, k(x,x) = var, symmetry "
-    "hold bit for bit on every generated case",
-    "positive semi-definiteness of the f64 Gram matrix is only searched: smallest eigenvalue >= -2.5 n max_ij(400 eps "
-    "(1 + |exponent|) k_ij) (rigorous eigvalsh margin, exact LDL^T certificate for n <= 10); the theorem is over the reals",
-    "accuracy of libm exp / pow",
-    "matrix form = scalar form entry by entry and Gram symmetry are proved for every scalar type satisfying "
-    "powi(a,2) = a*a resp. (a-b)*(a-b) = (b-a)*(b-a); that IEEE doubles satisfy them is assumed, not proved (Lean's "
-    "Float is opaque) - the oracle checks both bit for bit on every generated case",
-]
+NOT_PROVED = []   # the one coherent list is at the END of this file (after the lead's wiring blocks)
 TRUSTED = ["IEEE f64 arithmetic and glibc exp/pow shared by both executors",
            "LLVM powi lowering modelled as square-and-multiply (Cv.powi), measured bit-exact"]
 ASSUMPTIONS = ["finite f64 inputs; point sets non-empty (an empty point set yields an empty 0 x m / n x 0 matrix since F50: shape checked, compared with the model)"]
@@ -481,6 +471,14 @@ def corpus():
     ls.append(mk_pairs("rbf_p", 0, [one, 0.01], [(913.436, 913.4360001), (913.4360001, 913.436)]))
     # exact exponents 1/2 and 1/3 in the RQ matrix form (seed C20g: a sqrt/cbrt fast path in Vector::powf that
     # forgot the reciprocal gave var (1+z)^(+alpha): entries above var, growing with distance, != scalar form)
+    # Float-level witness that "positive" is a statement over the reals only: inside the domain (|x - y| = 2000,
+    # l = 0.01) exp / pow underflow and the computed kernel value is exactly 0.0 (RBF: e^(-2e10); RQ with alpha = 100:
+    # (2e8)^(-100)); scalar form, both impls, and matrix form (entries 0.0 off the diagonal, var on it).  The oracle
+    # demands 0 <= k <= var and k > 0 only where the exact value is >= 1e-290.
+    ls.append(mk_pairs("rbf_p", 0, [one, 0.01], [(1000.0, -1000.0), (-1000.0, 1000.0), (1000.0, 1000.0)]))
+    ls.append(mk_pairs("rq_p", 1, [one, 100.0, 0.01], [(1000.0, -1000.0), (-1000.0, 1000.0), (1000.0, 1000.0)]))
+    ls.append(mk_mat("rbf_m", 1, [one, 0.01], 1, 2, [1000.0, -1000.0], 1, 2, [1000.0, -1000.0]))
+    ls.append(mk_mat("rq_m", 2, [one, 100.0, 0.01], 2, 1, [1000.0, -1000.0], 2, 1, [1000.0, -1000.0]))
     # call sequences (seed C20i: squared distances memoised under an order-insensitive XOR fingerprint): a reordered
     # set and a different set of doubled points right after a call with the same fingerprint, every argument kind
     for kind in range(4):
@@ -721,3 +719,44 @@ NOT_PROVED = list(NOT_PROVED) + ['floating-point rounding of the scalar forms IS
 PROOF_MODULES = PROOF_MODULES + [m for m in ['Compute.Lemmas.Rounding6', 'Compute.Props.Rounding6'] if m not in PROOF_MODULES]
 REQUIRED_THEOREMS = REQUIRED_THEOREMS + ['Cv.Rounding6.rbf_matrix_near', 'Cv.Rounding6.rbf_matrix_range', 'Cv.Rounding6.rq_matrix_near', 'Cv.Rounding6.powi_two_idem', 'Cv.Rounding6.rbf_le_var']
 NOT_PROVED = list(NOT_PROVED) + ['matrix forms: with idempotent rounding powi(a,2) = a*a holds at the rounded scalar type (powi_two_idem), so every Gram entry is the scalar form and satisfies the two-sided bound (RBF: e^(-gamma_7 A)(1-u_f)(1-u)), is > 0, and under the explicit extra hypothesis ExpLeOne (libm exp <= 1 on x <= 0) is <= var(1+u) (Props/Rounding6); symmetry bit for bit and psd of the f64 Gram matrix remain oracle/searched']
+
+# --- review d: ONE coherent statement of what is and is not proved (replaces the NOT_PROVED entries accumulated above;
+# the module / theorem wiring of the blocks above is unchanged)
+NOT_PROVED = [
+    "PROVED OVER THE REALS (Props/C20, Props/C20Psd; no rounding): constructors, the four scalar facts for both kernels "
+    "(symmetric, k(x,x) = var, 0 < k <= var, non-increasing in |x - y|), matrix form = scalar form entry by entry with "
+    "shape n x m for all four argument kinds, Gram symmetry and diagonal, Gram matrices positive semi-definite "
+    "(Matrix.PosSemidef). The property's 'positive' holds over the reals; it does NOT hold at f64 (next item)",
+    "UNDERFLOW: at f64 the kernel value underflows to exactly 0.0 inside the quantified domain, e.g. RBF var = 1, "
+    "l = 0.01: k(1000, -1000) = 0.0, and RQ var = 1, alpha = 100, l = 0.01: k(1000, -1000) = 0.0 (corpus witness lines). "
+    "The oracle therefore demands 0 <= k <= var always and k > 0 only where the exact value is >= 1e-290. The sign "
+    "statements 'computed > 0' of Props/Rounding5 and Props/Rounding6 (scalar and matrix forms) are theorems of the "
+    "standard model with an exp / pow that never underflows (class ExpLnStd / PowStd): read them as 'in the standard "
+    "model, absent underflow (|x - y| <~ 38 l for RBF)'; they are false of f64 beyond that range",
+    "ROUNDING, PROVED IN THE STANDARD MODEL ONLY (Props/Rounding5, Props/Rounding6; fl(a op b) = (a op b)(1+d), |d| <= u, "
+    "libm exp / pow of relative error <= u_f, no underflow / overflow): the computed scalar and matrix-form values "
+    "satisfy c K <= computed <= K / c with c = e^(-gamma_9 A)(1-u_f)(1-u) (RBF scalar, A = (x-y)^2 / (2 l^2); gamma_7 for "
+    "the matrix form) resp. ((1-u)^11)^alpha (1-u_f)(1-u) (RQ); k <= var (1+u) under the explicit extra hypothesis "
+    "ExpLeOne (libm exp <= 1 on arguments <= 0). That IEEE doubles and glibc satisfy the standard model (u_f, ExpLeOne, "
+    "monotone exp / pow) is assumed, not proved",
+    "hp and hsq: matrix form = scalar form is proved for every scalar type with hp: powi(a,2) = a*a, Gram symmetry for "
+    "every scalar type with hp and hsq: (a-b)*(a-b) = (b-a)*(b-a) (hsq_of_neg_sub reduces hsq to b-a = -(a-b) and "
+    "(-t)(-t) = t t). Over the reals both hold (instantiated in Props/C20). hp is proved for the standard model with "
+    "idempotent rounding (Rounding6.powi_two_idem); hsq is NOT proved for any float model, and neither is proved of "
+    "Lean's opaque Float / IEEE doubles. At f64 both consequences are checked bit for bit by the oracle on every "
+    "generated case (matrix entry == scalar forward token for token; K_ij == K_ji)",
+    "NOT PROVED AT f64, SEARCHED ONLY: k <= var, k(x,x) = var and monotonicity in the distance (oracle: exact checks, "
+    "monotone within 4 ulp, never observed inverted); accuracy against the exact value (oracle: 400 eps (1 + |exponent|) "
+    "relative for RBF, 400 eps (1 + alpha) for RQ, mpmath 120 bits; observed <= 2.25 eps units); positive "
+    "semi-definiteness of the f64 Gram matrix (oracle: smallest eigenvalue >= -2.5 n max_ij tol_ij with a rigorous "
+    "eigvalsh margin and an exact rational LDL^T certificate for n <= 10)",
+    "SOURCE TIE: only the two scalar forward bodies (macros impl_kernel_f64_for_rbf / _rq) are regenerated from "
+    "kernels.rs and proved equal to the model (Props/SrcTieC20). The constructors and the matrix forms (reshape, "
+    "broadcast subtraction, Matrix::powi / exp / powf, scalar ops) are hand-modelled on top of the C04 / C12 / C15 "
+    "models and tied only by the bit-exact differential execution (all four argument kinds, call sequences included)",
+    "accuracy and monotonicity of libm exp / pow themselves",
+]
+TRUSTED = ["IEEE f64 arithmetic and glibc exp/pow shared by both executors",
+           "LLVM powi lowering modelled as square-and-multiply (Cv.powi), measured bit-exact",
+           "for the Rounding5/6 theorems: the standard model of floating-point arithmetic WITHOUT underflow/overflow and "
+           "its libm classes (ExpLnStd, PowStd, ExpLeOne) as an idealisation of f64 + glibc"]
